@@ -2,6 +2,12 @@
 """writes MANIFEST.json from the table below (keeps it valid and in one place)"""
 import json, os
 CHECKS = {
+ 'C18': dict(technique='NULL-check typestate for computed may-fail constructors (R-ALLOC-NULL) + linear ownership of PDUs with computed consumer summaries (R-OWN-PDU)',
+             text='Library-wide, every path: the result of every (computed) may-fail constructor is NULL-tested before any dereference or hand-over to a '
+                  'dereferencing callee; every PDU created or received through a consuming parameter is released/handed on/stored exactly once, never used '
+                  'after release; the frozen consumer contracts (coap_send*, coap_session_delay_pdu, coap_send_q_block*) are checked against their own bodies. '
+                  'Necessary for surviving allocation failure without crash or leak; "the next operation succeeds" is not decided.',
+             design='6 C18'),
  'C13': dict(technique='lock typestate {U,L,F} + in_callback counter over all paths and calling contexts (ESP-style property simulation), capability/mechanism configuration rule',
              text='Path- and context-exhaustive lock-discipline analysis with thread safety forced on and asserts visible: balance of lock/unlock and '
                   'in_callback on every path, every function that reaches the project\'s own precondition marker is entered locked, no locking wrapper is '
